@@ -60,9 +60,23 @@ impl Outer {
     }
 }
 
+/// > 0: every thread goes straight to `System`, threads that have not set
+/// their own flag yet included (a new thread's start-up allocations would
+/// otherwise be the first use of the profiler on that thread).
+static BYPASS_ALL: std::sync::atomic::AtomicUsize = std::sync::atomic::AtomicUsize::new(0);
+
+/// Runs `f` with the profiler out of the loop on every thread.
+pub fn bypass_all<R>(f: impl FnOnce() -> R) -> R {
+    use std::sync::atomic::Ordering::SeqCst;
+    BYPASS_ALL.fetch_add(1, SeqCst);
+    let r = f();
+    BYPASS_ALL.fetch_sub(1, SeqCst);
+    r
+}
+
 #[inline]
 fn bypassed() -> bool {
-    BYPASS.try_with(|b| b.get() > 0).unwrap_or(true)
+    BYPASS_ALL.load(std::sync::atomic::Ordering::Relaxed) > 0 || BYPASS.try_with(|b| b.get() > 0).unwrap_or(true)
 }
 
 /// Sets the base state of the current thread.
